@@ -3,7 +3,7 @@ import collections
 import os
 
 import funcs as F
-from core import Mismatch, Prop, canon
+from core import CaseTimeout, Mismatch, Prop, canon
 from util import build_layout, exc, random_layout
 
 SINGLE = ['collect', 'count', 'sum', 'reduce', 'fold', 'aggregate', 'foreach', 'countByValue', 'stats', 'saveAsTextFile']
@@ -208,6 +208,8 @@ class C06(Prop):
             elif act == 'first':
                 try:
                     rdd.first()
+                except CaseTimeout:
+                    raise
                 except BaseException:  # noqa: B036  empty dataset
                     pass
             elif act == 'isEmpty':
